@@ -129,6 +129,11 @@ type runner struct {
 
 // runCLI executes one gleece command in dir and observes it.
 func (r *runner) runCLI(dir, sub, config, routesOut, specOut, order string) *runObs {
+	return r.runCLIEnv(dir, sub, config, routesOut, specOut, order, nil)
+}
+
+// runCLIEnv: extra holds further environment settings of the child process (the scheduler's degrees of freedom, e.g. GOMAXPROCS)
+func (r *runner) runCLIEnv(dir, sub, config, routesOut, specOut, order string, extra []string) *runObs {
 	obs := &runObs{Cmd: sub, Config: config, Order: order, ErrLines: []string{}}
 	trace := filepath.Join(dir, "trace.ndjson")
 	os.Remove(trace)
@@ -151,6 +156,7 @@ func (r *runner) runCLI(dir, sub, config, routesOut, specOut, order string) *run
 	if order != "" {
 		env = append(env, "VERIF_ORDER="+order)
 	}
+	env = append(env, extra...)
 	cmd.Env = env
 	var buf bytes.Buffer
 	cmd.Stdout = &buf
@@ -462,8 +468,15 @@ func (r *runner) runCase(work string, pc *pCase, plan pipePlan, keep bool) *case
 	if plan.Alt {
 		rec.Runs["alt"] = r.runCLI(dir, "generate spec", "gleece.alt.config.json", "", "./dist/openapi.alt.json", "")
 	}
+	// fresh-process repeats under different schedulers: the output must not depend on how many threads parse / analyse
+	// (packages.Load parses the files of a package concurrently; GOMAXPROCS=1 serialises that, larger values race)
+	procs := []string{"GOMAXPROCS=1", "", "GOMAXPROCS=2", "GOMAXPROCS=8", "", "GOMAXPROCS=3"}
 	for i := 0; i < plan.Repeat; i++ {
-		rec.Runs[fmt.Sprintf("repeat%d", i)] = r.runCLI(dir, "generate spec-and-routes", "gleece.config.json", routesOut, specOut, "")
+		var extra []string
+		if p := procs[i%len(procs)]; p != "" {
+			extra = []string{p}
+		}
+		rec.Runs[fmt.Sprintf("repeat%d", i)] = r.runCLIEnv(dir, "generate spec-and-routes", "gleece.config.json", routesOut, specOut, "", extra)
 	}
 	for i, o := range plan.Orders {
 		rec.Runs[fmt.Sprintf("order%d", i)] = r.runCLI(dir, "generate spec-and-routes", "gleece.config.json", routesOut, specOut, o)
